@@ -15,6 +15,10 @@
    callback raises after the result was recorded; a voter's agent raises a
    BaseException during collection), the statistics counters.
 
+   Time (last part of the file): timed histories - every run_vote call says how
+   long each member's agent needs for its answer, timeout_seconds may be
+   assigned; [run_case] is what the correspondence check evaluates.
+
    [legacy = true] selects the behaviour before the two C06 `fix:` commits
    (23cf55f fractional count threshold, 722a2c0 Bayesian update); the
    property theorems are about [legacy = false]. *)
@@ -491,7 +495,7 @@ Definition script_of (l : list behaviour) : nat -> behaviour := fun i => nth i l
 (* config, enable_reliability_tracking, initial (weight, reliability) per agent, operations *)
 Definition case := (config * bool * list (Q * Q) * list op)%type.
 
-Definition run_case_gen (legacy : bool) (c : case) : list (list Z) :=
+Definition run_untimed_gen (legacy : bool) (c : case) : list (list Z) :=
   let '(cfg, tracking, ws, ops) := c in
   obs_history legacy (init_state cfg tracking ws) ops.
 
@@ -530,5 +534,133 @@ Definition compress (o : list (list Z)) : list (list Z) :=
   | s :: rest => rle s 1%Z rest
   end.
 
-Definition run_case (c : case) : list (list Z) := compress (run_case_gen false c).
-Definition run_case_legacy (c : case) : list (list Z) := compress (run_case_gen true c).
+Definition run_untimed (c : case) : list (list Z) := compress (run_untimed_gen false c).
+Definition run_untimed_legacy (c : case) : list (list Z) := compress (run_untimed_gen true c).
+
+(* ---------------------------------------------------------------------- *)
+(* time: voters that need time to answer, and timeout_seconds                *)
+
+(* run_vote polls the colony members one after the other on the caller's own
+   thread and waits for every answer; `timeout_seconds` is stored by the
+   constructor (30.0; 5.0 for EmergencyQuorum), may be assigned, and is never
+   read.  A timed call says how long (seconds) every member's agent needs for
+   its answer. *)
+Inductive top :=
+| TOp (o : op)                                            (* every agent answers at once *)
+| TVote (script : nat -> behaviour) (delay : nat -> Q)    (* run_vote; member i answers after delay i *)
+| TInterrupted (script : nat -> behaviour) (delay : nat -> Q) (k : nat)
+| TSetTimeout (t : Q).                                    (* quorum.timeout_seconds = t *)
+
+Definition zero_delay : nat -> Q := fun _ => 0.
+
+(* the run_vote call an operation makes: script, delays, Some k = abandoned at member k *)
+Definition call_of (o : top) : option ((nat -> behaviour) * (nat -> Q) * option nat) :=
+  match o with
+  | TVote sc d => Some (sc, d, None)
+  | TInterrupted sc d k => Some (sc, d, Some k)
+  | TOp (OVote sc) => Some (sc, zero_delay, None)
+  | TOp (OInterrupted sc k) => Some (sc, zero_delay, Some k)
+  | _ => None
+  end.
+
+(* the same operation with the clock taken away *)
+Definition untimed (o : top) : list op :=
+  match o with
+  | TOp o' => [o']
+  | TVote sc _ => [OVote sc]
+  | TInterrupted sc _ k => [OInterrupted sc k]
+  | TSetTimeout _ => []
+  end.
+
+(* the instants (seconds after the call began) at which the members' agents have
+   answered: member i is asked when member i-1 has answered *)
+Fixpoint answer_times (i : nat) (t : Q) (colony : list profile) (delay : nat -> Q) : list Q :=
+  match colony with
+  | [] => []
+  | _ :: r => (t + delay i) :: answer_times (S i) (t + delay i) r delay
+  end.
+
+Fixpoint sum_delays (i : nat) (colony : list profile) (delay : nat -> Q) : Q :=
+  match colony with
+  | [] => 0
+  | _ :: r => delay i + sum_delays (S i) r delay
+  end.
+
+(* vote collection is over (and aggregation begins) when the last member polled has answered *)
+Definition returns_at (colony : list profile) (delay : nat -> Q) : Q := sum_delays 0 colony delay.
+
+(* how many members' agents have answered by the time the call is over *)
+Definition answered_within (colony : list profile) (delay : nat -> Q) : Z :=
+  len (filter (fun a => Qle_bool a (returns_at colony delay)) (answer_times 0 0 colony delay)).
+
+(* the instance, its timeout_seconds, and the time spent inside run_vote calls so far *)
+Record tstate := mkT { t_q : qstate; t_timeout : Q; t_now : Q }.
+
+Definition tstep (legacy : bool) (ts : tstate) (o : top) : tstate :=
+  let st := t_q ts in
+  match o with
+  | TSetTimeout t => mkT st t (t_now ts)
+  | _ =>
+      mkT (final_state legacy st (untimed o)) (t_timeout ts)
+          (t_now ts +
+           match call_of o with
+           | Some (_, d, None) => returns_at (s_colony st) d
+           | Some (_, d, Some k) =>
+               if (k <? length (s_colony st))%nat then nth k (answer_times 0 0 (s_colony st) d) 0 else 0
+           | None => 0
+           end)
+  end.
+
+(* every aggregated vote of a timed history: the (timed) state it was taken in,
+   script, delays, outcome *)
+Fixpoint ttrace (legacy : bool) (ts : tstate) (ops : list top)
+  : list (tstate * (nat -> behaviour) * (nat -> Q) * outcome) :=
+  match ops with
+  | [] => []
+  | o :: rest =>
+      (match call_of o with
+       | Some (sc, d, None) =>
+           [(ts, sc, d, run_vote legacy (s_cfg (t_q ts)) (voters_of (s_colony (t_q ts)) sc))]
+       | _ => []
+       end) ++ ttrace legacy (tstep legacy ts o) rest
+  end.
+
+Fixpoint tfinal (legacy : bool) (ts : tstate) (ops : list top) : tstate :=
+  match ops with
+  | [] => ts
+  | o :: rest => tfinal legacy (tstep legacy ts o) rest
+  end.
+
+(* observations of one aggregated call: as [obs_vote], plus the row
+   [-7; number of members whose agent had answered when run_vote was over] *)
+Definition tobs_vote (st : qstate) (o : outcome) (answered : Z) : list (list Z) :=
+  obs_of (ending_of st o) o
+  ++ [[(-7)%Z; answered]]
+  ++ [[(-4)%Z; match fired st o with None => 0 | Some true => 1 | Some false => 2 end]%Z].
+
+Fixpoint tobs_history (legacy : bool) (ts : tstate) (ops : list top) : list (list Z) :=
+  match ops with
+  | [] => obs_state (t_q ts)
+  | o :: rest =>
+      (match call_of o with
+       | Some (sc, d, None) =>
+           tobs_vote (t_q ts) (run_vote legacy (s_cfg (t_q ts)) (voters_of (s_colony (t_q ts)) sc))
+                     (answered_within (s_colony (t_q ts)) d)
+       | Some (_, _, Some k) => if (k <? length (s_colony (t_q ts)))%nat then [[(-3)%Z]] else []
+       | None => []
+       end) ++ tobs_history legacy (tstep legacy ts o) rest
+  end.
+
+(* delays given as a list; members beyond it answer at once *)
+Definition delays_of (l : list Q) : nat -> Q := fun i => nth i l 0.
+
+(* config, enable_reliability_tracking, timeout_seconds, initial (weight, reliability) per agent, operations *)
+Definition tcase := (config * bool * Q * list (Q * Q) * list top)%type.
+
+Definition run_case_gen (legacy : bool) (c : tcase) : list (list Z) :=
+  let '(cfg, tracking, timeout, ws, ops) := c in
+  tobs_history legacy (mkT (init_state cfg tracking ws) timeout 0) ops.
+
+(* what the correspondence check evaluates on every case the implementation ran *)
+Definition run_case (c : tcase) : list (list Z) := compress (run_case_gen false c).
+Definition run_case_legacy (c : tcase) : list (list Z) := compress (run_case_gen true c).
